@@ -141,6 +141,10 @@ func c02ArgList(a, v int) []interface{} {
 		return []interface{}{structT{7, secStr[v], secPlain[v]}, map[string]int{secKeyA[v]: 1}, panStrT{"pb " + secPlain[v]}}
 	case 6:
 		return []interface{}{redact.Safe("pub"), secPlain[v], safeFmtT{"k", secStr[v]}}
+	case 7:
+		return []interface{}{"", secStrLF[v], 1}
+	case 8:
+		return []interface{}{secPlain[v] + "\n", "", redact.Safe(mStart + "s")}
 	case 100:
 		return []interface{}{4, 5, secPlain[v]}
 	case 101:
@@ -151,12 +155,12 @@ func c02ArgList(a, v int) []interface{} {
 	return nil
 }
 
-const c02NArgLists = 7
+const c02NArgLists = 9
 
 func c02PairVals() []Val {
 	var r []Val
 	want := map[string]bool{"int": true, "stringLF": true, "float64": true, "[]byte": true, "[]interface{}": true, "struct": true, "Stringer": true, "error": true, "safeT": true, "panic String(str)": true, "nil": true, "map[string]int": true, "Formatter": true, "bool": true,
-		"stringEmpty": true, "Safe(str)": true, "Unsafe(safeT)": true, "RedactableString": true, "SafeFormatter": true, "[]iface{Safe,unsafe,Redactable}": true, "*int": true, "Safe(nil)": true}
+		"stringEmpty": true, "Safe(str)": true, "Unsafe(safeT)": true, "RedactableString": true, "SafeFormatter": true, "[]iface{Safe,unsafe,Redactable}": true, "*int": true, "Safe(nil)": true, "RedactableString starting and ending with an envelope": true}
 	for _, v := range universe() {
 		if want[v.Name] {
 			r = append(r, v)
